@@ -2,8 +2,8 @@ import Xo.Model.DictForm
 import Xo.Drv.Util
 /-! line-protocol driver of the dictionary / JSON form model (component `dict`)
 
-  univ <c0>;<c1>;…      class = `xo>py=K,…`   K: n<default> | N<cls> | R<cls>
-  todict <cls> <V>      → canonical dictionary (keys sorted)       V: `n<int>` | `_` | `(V V …)`
+  univ <c0>;<c1>;…      class = `xo>py=K,…`   K: n<default> | a (array of dynamic shape: no default) | z<n> (static array of n) | N<cls> | R<cls>
+  todict <cls> <V>      → canonical dictionary (keys sorted)       V: `n<int>` | `a<int>/<int>/…` (`a-`: empty) | `_` | `(V V …)`
   rt <cls> <V>          → `same` | `differs <V'>`     (fromDict ∘ toDict)
   json <JT> <JV>        → canonical JSON;   JT: n | s | [JT] | {name:JT,…}    JV: n<int> | s<hex> | [JV,…] | {JV,…}
 -/
@@ -12,9 +12,12 @@ open DictF Drv
 
 structure St where
   u : Universe := []
+  arrs : List (Nat × String) := []        -- (class, python name) of the array-valued fields: printed as lists
 
 def parseK (w : String) : Option FK :=
-  if w.startsWith "n" then (w.drop 1).toInt?.map .num
+  if w.startsWith "n" then (w.drop 1).toInt?.map fun d => .num (some [d])
+  else if w == "a" then some (.num none)
+  else if w.startsWith "z" then (w.drop 1).toNat?.map fun n => .num (some (List.replicate n 0))
   else if w.startsWith "N" then (w.drop 1).toNat?.map .obj
   else if w.startsWith "R" then (w.drop 1).toNat?.map .optobj
   else none
@@ -39,19 +42,38 @@ partial def parseV : List String → Option (V × List String)
         | none => none
     items r []
  | "_" :: r => some (.null, r)
- | t :: r => if t.startsWith "n" then (t.drop 1).toInt?.map fun v => (.num v, r) else none
+ | t :: r =>
+    if t.startsWith "n" then (t.drop 1).toInt?.map fun v => (.num [v], r)
+    else if t == "a-" then some (.num [], r)
+    else if t.startsWith "a" then
+      let ps := ((t.drop 1).toString.splitOn "/").map (·.toInt?)
+      if ps.all (·.isSome) then some (.num (ps.filterMap id), r) else none
+    else none
  | [] => none
 
 def toks (s : String) : List String :=
   ((s.replace "(" " ( ").replace ")" " ) ").splitOn " " |>.filter (· ≠ "")
 
-partial def showD : D → String
- | .num v => toString v
+def showNums (v : List Int) : String := "[" ++ ",".intercalate (v.map toString) ++ "]"
+
+/-- `byXo`: the dictionary is keyed by xobject names (the full form stored for a reference) -/
+partial def showD (st : St) (c : Nat) (byXo : Bool) : D → String
+ | .num v => match v with | [x] => toString x | _ => showNums v
  | .none_ => "None"
- | .dict kv => "{" ++ ",".intercalate ((kv.map fun (k, d) => k ++ ":" ++ showD d).mergeSort) ++ "}"
+ | .dict kv => "{" ++ ",".intercalate ((kv.map fun (k, d) =>
+      let fld := (clsOf st.u c).fields.find? fun f => (if byXo then f.1 else f.2.1) == k
+      let isArr := match fld with | some f => st.arrs.contains (c, f.2.1) | none => false
+      let sub := match fld with
+        | some (_, _, .obj c') => showD st c' byXo d
+        | some (_, _, .optobj c') => showD st c' true d
+        | _ => match d, isArr with
+          | .num v, true => showNums v
+          | _, _ => showD st c byXo d
+      k ++ ":" ++ sub).mergeSort) ++ "}"
 
 partial def showV : V → String
- | .num v => s!"n{v}"
+ | .num [v] => s!"n{v}"
+ | .num v => "a" ++ (if v.isEmpty then "-" else "/".intercalate (v.map toString))
  | .null => "_"
  | .obj vs => "(" ++ " ".intercalate (vs.map showV) ++ ")"
 
@@ -115,11 +137,17 @@ def step (s : St) (line : String) : St × String :=
   match words line with
   | ["univ", spec] =>
     match (spec.splitOn ";").mapM parseCls with
-    | some u => ({ u }, "ok")
+    | some u =>
+      let arrs := ((spec.splitOn ";").zipIdx.flatMap fun (w, ci) =>
+        (w.splitOn ",").filterMap fun e =>
+          match e.splitOn "=" with
+          | [names, k] => if k == "a" || k.startsWith "z" then (names.splitOn ">")[1]?.map fun py => (ci, py) else none
+          | _ => none)
+      ({ u, arrs }, "ok")
     | none => (s, "bad-op")
   | "todict" :: c :: _ =>
     match c.toNat?, parseV (toks (restAfter line 2)) with
-    | some c, some (v, _) => (s, showD (toDict s.u 16 c v))
+    | some c, some (v, _) => (s, showD s c false (toDict s.u 16 c v))
     | _, _ => (s, "bad-op")
   | "rt" :: c :: _ =>
     match c.toNat?, parseV (toks (restAfter line 2)) with
